@@ -1336,6 +1336,20 @@ func c07VerifyOpen(rep *c07Rep, cs *c07File, data []byte, o c07Open, chunks []*c
 		default:
 			bf = rgs[ch.RowGroup].ColumnChunks()[ch.Col].BloomFilter()
 		}
+		if bf == nil && o.Via == "multi" {
+			// a concatenation has a filter only when every one of its chunks has one (a chunk
+			// without filter may hold any value; repair b389733): no filter is then the right answer
+			allHave := true
+			for _, x := range chunks {
+				if x.Col == ch.Col && !x.HasFilter {
+					allHave = false
+				}
+			}
+			if !allHave {
+				c.Case("multi/no-filter-because-a-chunk-has-none", fmt.Sprintf("%d", ch.Col), true)
+				continue
+			}
+		}
 		if bf == nil {
 			fail("filter-missing", fmt.Sprintf("opened with %v: row group %d column %d has no filter, although it has one under the default options", o, ch.RowGroup, ch.Col))
 			return false
